@@ -6,11 +6,14 @@ import (
 	"fmt"
 	"math"
 	"math/rand"
+	"os"
+	"os/exec"
 	"runtime"
 	"strings"
 	"sync"
 	"sync/atomic"
 	"testing"
+	"testing/synctest"
 	"time"
 
 	"verif/harness/ev"
@@ -28,7 +31,7 @@ func TestC16(t *testing.T) {
 	for _, pol := range policies {
 		for _, size := range []int{1, 2} {
 			journal(fmt.Sprintf("C16 programs policy=%q size=%d", pol, size))
-			p := inBubble(t, func() {
+			p := inBubbleC16(t, r, func() {
 				w := world.New("memguard")
 				defer w.Close()
 				time.Sleep(13 * time.Second)
@@ -65,7 +68,7 @@ func TestC16(t *testing.T) {
 	// cached sessions over one shared intermediate-key cache: after all holders and the factory are closed every key of
 	// every session has to be released as well (ledger of the programs)
 	sessprog.SharedIK = true
-	p0 := inBubble(t, func() {
+	p0 := inBubbleC16(t, r, func() {
 		w := world.New("memguard")
 		defer w.Close()
 		time.Sleep(13 * time.Second)
@@ -99,7 +102,7 @@ func TestC16(t *testing.T) {
 	// SessionCacheDuration = 250 years and = the largest time.Duration
 	for _, dur := range []time.Duration{250 * 365 * 24 * time.Hour, time.Duration(math.MaxInt64), time.Duration(math.MaxInt64) - time.Millisecond} {
 		journal(fmt.Sprintf("C16 programs with session cache duration %s", dur))
-		p := inBubble(t, func() {
+		p := inBubbleC16(t, r, func() {
 			w := world.New("memguard")
 			defer w.Close()
 			time.Sleep(13 * time.Second)
@@ -127,10 +130,13 @@ func TestC16(t *testing.T) {
 	}
 	r.Exhaustive(true)
 	r.Extra("program_length", L)
-	largeCachePrograms(t, r)
-	sessionCacheSchedules(r)
-	stressC16(t, r)
-	rawPassesC16(r)
+	if !c16Hung.Load() {
+		largeCachePrograms(t, r)
+		sessionCacheSchedules(r)
+		// (with a tear-down that never finishes the real-goroutine passes would only wait for their own time limit)
+		stressC16(t, r)
+		rawPassesC16(r)
+	}
 	r.Finish(t)
 }
 
@@ -283,7 +289,7 @@ func largeCachePrograms(t *testing.T, r *ev.Run) {
 				}
 			}
 			prog = append(prog, sessprog.Op{Kind: 'U', Arg: 0}, sessprog.Op{Kind: 'A'}, sessprog.Op{Kind: 'U', Arg: 0}, sessprog.Op{Kind: 'C', Arg: 0}, sessprog.Op{Kind: 'F'})
-			p := inBubble(t, func() {
+			p := inBubbleC16(t, r, func() {
 				w := world.New("memguard")
 				defer w.Close()
 				w.MS.Drop, w.AEAD.Drop = true, true
@@ -306,4 +312,76 @@ func largeCachePrograms(t *testing.T, r *ev.Run) {
 			}
 		}
 	}
+}
+
+// inBubbleC16 runs f (which executes session-cache programs) inside a bubble under a progress watchdog. A goroutine
+// waiting for a sync.Mutex is not "durably blocked" for synctest, so a lock that is never released (a tear-down
+// goroutine that dead-locks on its own mutex, say) would hang the bubble until the test binary's time limit. If no
+// program starts for 120 s of wall clock (one program takes milliseconds) the program that was running is executed
+// once more on its own; if that does not finish within 60 s either, the hang is reported for that program with the
+// bubble abandoned, otherwise the run is inconclusive.
+var c16Hung atomic.Bool
+
+func inBubbleC16(t *testing.T, r *ev.Run, f func()) (panicked any) {
+	if c16Hung.Load() {
+		return nil // a hang has been reported: what follows would only hang again
+	}
+	done := make(chan any, 1)
+	go func() {
+		defer func() { done <- recover() }()
+		synctest.Test(t, func(t *testing.T) { f() })
+	}()
+	last, idle := sessprog.Started.Load(), 0
+	for {
+		select {
+		case p := <-done:
+			return p
+		case <-time.After(20 * time.Second):
+		}
+		if cur := sessprog.Started.Load(); cur != last {
+			last, idle = cur, 0
+			continue
+		}
+		if idle++; idle < 6 {
+			continue
+		}
+		cp, _ := sessprog.Current.Load().(sessprog.CurrentProgram)
+		// second attempt in a child process (the abandoned bubble still owns the harness's process-wide monitors)
+		ctx, cancel := context.WithTimeout(context.Background(), 90*time.Second)
+		cmd := exec.CommandContext(ctx, os.Args[0], "-test.run=^TestC16Child$", "-test.count=1")
+		cmd.Env = append(os.Environ(), fmt.Sprintf("VERIF_C16_CHILD=%s|%d|%d|%v|%s", cp.Policy, cp.Size, int64(cp.Dur), cp.Shared, sessprog.ProgString(cp.Prog)))
+		out, err := cmd.CombinedOutput()
+		timedOut := ctx.Err() != nil
+		cancel()
+		if !timedOut && strings.Contains(string(out), "C16CHILD finished") {
+			r.Inconclusive(fmt.Sprintf("no session-cache program started for 120 s of wall clock while [%s] (policy %q, size %d) was running, but the same program finished when run on its own in a child process", sessprog.ProgString(cp.Prog), cp.Policy, cp.Size))
+			return "progress watchdog fired (inconclusive)"
+		}
+		c16Hung.Store(true)
+		return fmt.Sprintf("hang: session-cache program [%s] (policy %q, size %d, duration %s) does not finish: no progress for 120 s of wall clock, and a child process running only this program did not finish within 90 s either (timed out=%v, err=%v; a lock that is never released?)", sessprog.ProgString(cp.Prog), cp.Policy, cp.Size, cp.Dur, timedOut, err)
+	}
+}
+
+// TestC16Child runs one session-cache program in a process of its own (second attempt after a suspected hang).
+func TestC16Child(t *testing.T) {
+	spec := os.Getenv("VERIF_C16_CHILD")
+	if spec == "" {
+		t.Skip("helper process of TestC16")
+	}
+	f := strings.SplitN(spec, "|", 5)
+	if len(f) != 5 {
+		t.Fatal("bad spec")
+	}
+	var size int
+	var dur int64
+	fmt.Sscanf(f[1], "%d", &size)
+	fmt.Sscanf(f[2], "%d", &dur)
+	sessprog.SharedIK = f[3] == "true"
+	synctest.Test(t, func(t *testing.T) {
+		w := world.New("memguard")
+		defer w.Close()
+		time.Sleep(13 * time.Second)
+		sig, _, _ := sessprog.RunProgram(w, f[0], size, sessprog.ParseProg(f[4]), time.Duration(dur))
+		fmt.Println("C16CHILD finished", sig)
+	})
 }
